@@ -70,6 +70,13 @@ def gen_cases(rng, tier):
         for ch in codes:
             c = rng.choice([1, 1, 2, 3]); fmt += (str(c) if c > 1 else '') + ch; flat += ch * c
         yield {'op': 'pack', 'fmt': fmt, 'codes': flat, 'pre': pre, 'vals': [rval(rng, ch) for ch in flat]}
+    for _ in range(N // 4):
+        k = rng.randrange(1, 5)
+        codes = ''.join(rng.choice(CODES) for _ in range(k)); pre = rng.choice('><=')
+        fmt, flat = pre, ''
+        for ch in codes:
+            cnt = rng.choice([1, 1, 2, 3]); fmt += (str(cnt) if cnt > 1 else '') + ch; flat += ch * cnt
+        yield {'op': 'roundtrip_lsb0', 'fmt': fmt, 'codes': flat, 'pre': pre, 'vals': [rval(rng, ch) for ch in flat], 'extra': rng.choice(['', '', '0b1', '0xff'])}
     for _ in range(N // 3):
         code = rng.choice(CODES)
         yield {'op': 'array', 'code': code, 'pre': rng.choice(['=', '>', '<', '=']), 'vals': [rval(rng, code) for _ in range(rng.randrange(0, 6))], 'other': rng.choice(CODES)}
@@ -101,6 +108,18 @@ def run_impl(c):
             p = pack(c['fmt'], *c['vals'])
             vals = p.unpack(c['fmt'])
             return [list(p.tobytes()), [fhex(v) if isinstance(v, float) else v for v in vals], len(p)]
+        return attempt(f)
+    if op == 'roundtrip_lsb0':
+        import bitstring
+        def f():
+            bitstring.options.lsb0 = True
+            try:
+                p = pack(c['fmt'], *c['vals'])
+                vals = p.unpack(c['fmt'])
+                s2 = bitstring.ConstBitStream(p); vals2 = s2.readlist(c['fmt'])
+                return [[fhex(v) if isinstance(v, float) else v for v in vals], [fhex(v) if isinstance(v, float) else v for v in vals2], len(p), s2.pos]
+            finally:
+                bitstring.options.lsb0 = False
         return attempt(f)
     if op == 'adopt':
         w = 8 * INTW[c['code']]
@@ -193,6 +212,14 @@ def oracle(c, obs):
             return f"pack({c['fmt']!r}, {c['vals']}).bytes = {bytes(obs[1][0]).hex()} but struct.pack gives {bytes(exp).hex()}"
         back = [fhex(v) if isinstance(v, float) else v for v in struct.unpack(c['fmt'], bytes(exp))]
         if obs[1][1] != back: return f"unpack({c['fmt']!r}) gave {obs[1][1]}, struct.unpack gives {back}"
+        return None
+    if op == 'roundtrip_lsb0':
+        try: exp = list(struct.pack(c['fmt'], *c['vals']))
+        except (OverflowError, struct.error): return None
+        if obs[0] != 'ok': return f"lsb0 pack/unpack {c['fmt']!r} {c['vals']} raised {obs}"
+        back = [fhex(v) if isinstance(v, float) else v for v in struct.unpack(c['fmt'], bytes(exp))]
+        if obs[1][0] != back or obs[1][1] != back or obs[1][2] != 8 * len(exp) or obs[1][3] != 8 * len(exp):
+            return f"under lsb0, pack({c['fmt']!r}, {c['vals']}) then unpack / readlist gave {obs[1][0]} / {obs[1][1]} ({obs[1][2]} bits, pos {obs[1][3]}); struct round trip gives {back} ({8 * len(exp)} bits)"
         return None
     if op == 'adopt':
         if obs[0] != 'ok': return f"{c} raised {obs}"
